@@ -2,9 +2,11 @@
 (* R-spec for C11: every position supp reports for a binding points at the identifier.
    A case is one binding occurrence with every report of it:
      [id, name |-> <<codes>>, kind ("name" | "except"),
-      reports |-> << [via ("names" | "lint" | "location"), line, col, inrange, text |-> <<codes of line[col : col + len]>>] >>]
+      reports |-> << [via ("names" | "lint" | "location"), line, col, inrange, text |-> <<codes of line[col : col + len]>>,
+                      tok (the token that starts at the position is that identifier / keyword)] >>]
    (text is cut out of the file named in the report, lines split as Python's tokenizer splits them).
    Clauses: InRange, TextAtPosition (the text is the identifier; for `except .. as name` the keyword except),
+   AtToken (the token starting at the position is the identifier: the `d` inside `def` is not the identifier d),
    SameAcrossEntryPoints (all reports of one binding carry one position).       *)
 EXTENDS Naturals, Sequences, FiniteSets, TLC, Json, IOUtils
 Cases == JsonDeserialize(IOEnv.VERIF_CASES)
@@ -19,12 +21,14 @@ Judge ==
          want == IF r.kind = "except" THEN Except ELSE r.name
          inr == \A i \in 1..Len(r.reports) : r.reports[i].inrange
          txt == \A i \in 1..Len(r.reports) : r.reports[i].inrange => r.reports[i].text = want
+         tok == \A i \in 1..Len(r.reports) : r.reports[i].inrange => r.reports[i].tok
          same == \A i, j \in 1..Len(r.reports) : (r.reports[i].line = r.reports[j].line /\ r.reports[i].col = r.reports[j].col) IN
      /\ (IF inr THEN TRUE ELSE Fail(cid, "InRange", 0))
      /\ (IF txt THEN TRUE ELSE Fail(cid, "TextAtPosition", [i \in 1..Len(r.reports) |-> r.reports[i].via]))
+     /\ (IF tok \/ ~txt THEN TRUE ELSE Fail(cid, "AtToken", [i \in 1..Len(r.reports) |-> <<r.reports[i].via, r.reports[i].line, r.reports[i].col>>]))
      /\ (IF same THEN TRUE ELSE Fail(cid, "SameAcrossEntryPoints", [i \in 1..Len(r.reports) |-> <<r.reports[i].via, r.reports[i].line, r.reports[i].col>>]))
      /\ TLCSet(1, TLCGet(1) \cup {cid})
-     /\ (IF inr /\ txt /\ same THEN TRUE ELSE TLCSet(2, TLCGet(2) \cup {cid}))
+     /\ (IF inr /\ txt /\ tok /\ same THEN TRUE ELSE TLCSet(2, TLCGet(2) \cup {cid}))
 Spec == Init /\ [][Judge]_<<cid, done>>
 ASSUME TLCSet(1, {}) /\ TLCSet(2, {})
 Post == /\ PrintT(ToJson(<<"VDONE", "C11", NC, Cardinality(TLCGet(1)), Cardinality(TLCGet(2))>>))
